@@ -289,6 +289,80 @@ theorem published_in (S : Gen R O M → Prop) (s : St R O M) (l : List (Step R O
           · cases h
           · exact hb u' g' h
 
+/-! ### Sequential histories -/
+
+/-- The three reads of a request, in the order `serveHTTP` performs them. -/
+def triple (g : Gen R O M) : List (Field × Val R O M) :=
+  [(.rules, g.read .rules), (.mapper, g.read .mapper), (.options, g.read .options)]
+
+theorem run_reload (s : St R O M) (g : Gen R O M) :
+    (run s [.build 0 g, .store 0]).cur = g ∧ (run s [.build 0 g, .store 0]).reqs = s.reqs := by
+  simp [run, step]
+
+theorem run_req (s : St R O M) (k : Nat) (hl : (s.reqs k).loaded = none) (ho : (s.reqs k).obs = []) :
+    let s' := run s [.load k, .use k .rules, .use k .mapper, .use k .options]
+    s'.cur = s.cur ∧ (∀ i, i ≠ k → s'.reqs i = s.reqs i) ∧ (s'.reqs k).obs = triple s.cur := by
+  intro s'
+  have e1 := step_load_none s k hl
+  let s1 := setReq s k { loaded := some s.cur, obs := (s.reqs k).obs }
+  have h1 : (s1.reqs k).loaded = some s.cur := by simp [s1, setReq_reqs]
+  have e2 := step_use_some s1 k .rules s.cur h1
+  let s2 := setReq s1 k { loaded := some s.cur, obs := (s1.reqs k).obs ++ [(Field.rules, s.cur.read .rules)] }
+  have h2 : (s2.reqs k).loaded = some s.cur := by simp [s2, setReq_reqs]
+  have e3 := step_use_some s2 k .mapper s.cur h2
+  let s3 := setReq s2 k { loaded := some s.cur, obs := (s2.reqs k).obs ++ [(Field.mapper, s.cur.read .mapper)] }
+  have h3 : (s3.reqs k).loaded = some s.cur := by simp [s3, setReq_reqs]
+  have e4 := step_use_some s3 k .options s.cur h3
+  have hs' : s' = setReq s3 k { loaded := some s.cur, obs := (s3.reqs k).obs ++ [(Field.options, s.cur.read .options)] } := by
+    show run s _ = _
+    simp only [run]
+    rw [e1, e2, e3, e4]
+  rw [hs']
+  refine ⟨rfl, ?_, ?_⟩
+  · intro i hi
+    simp [setReq_reqs, hi, s3, s2, s1]
+  · simp [setReq_reqs, s3, s2, s1, ho, triple]
+
+theorem seqRun_spec (ops : List (HOp R O M)) : ∀ (s : St R O M) (k : Nat),
+    (∀ r, k ≤ r → (s.reqs r).loaded = none ∧ (s.reqs r).obs = []) →
+    (∀ i, i < k → (seqRun s k ops).reqs i = s.reqs i) ∧
+    (∀ j g, (expectedGens s.cur ops)[j]? = some g → ((seqRun s k ops).reqs (k + j)).obs = triple g) := by
+  induction ops with
+  | nil => intro s k _; exact ⟨fun _ _ => rfl, by intro j g h; simp [expectedGens] at h⟩
+  | cons op rest ih =>
+    intro s k hf
+    cases op with
+    | reload g =>
+      obtain ⟨hc, hr⟩ := run_reload s g
+      have := ih (run s [.build 0 g, .store 0]) k (by intro r hr'; rw [hr]; exact hf r hr')
+      simp only [seqRun, expectedGens]
+      rw [hc, hr] at this
+      exact this
+    | req =>
+      obtain ⟨hl, ho⟩ := hf k (Nat.le_refl k)
+      obtain ⟨hc, hoth, hobs⟩ := run_req s k hl ho
+      have ih' := ih (run s [.load k, .use k .rules, .use k .mapper, .use k .options]) (k + 1)
+        (by intro r hr; rw [hoth r (by omega)]; exact hf r (by omega))
+      obtain ⟨ih1, ih2⟩ := ih'
+      simp only [seqRun, expectedGens]
+      refine ⟨?_, ?_⟩
+      · intro i hi
+        rw [ih1 i (by omega), hoth i (by omega)]
+      · intro j g hj
+        cases j with
+        | zero =>
+          simp at hj
+          subst hj
+          show ((seqRun _ (k + 1) rest).reqs k).obs = _
+          rw [ih1 k (by omega)]
+          exact hobs
+        | succ j =>
+          simp at hj
+          rw [hc] at ih2
+          have := ih2 j g hj
+          rw [show k + (j + 1) = k + 1 + j by omega]
+          exact this
+
 /-! ## Part 2: registry -/
 
 /-- Well-formedness of the registry: instance identities are fresh, unique per name, and no
